@@ -509,6 +509,15 @@ class Discharger:
                                 return True
             return is_count(y)
         if from_local_reads(x[2]) or from_local_reads(x[3]):
+            if x[1] == "SubWithOverflow":
+                # `remaining -= n`: n <= buffer length is only enough if the buffer is no longer than `remaining`
+                minuend_locals = {y[1] for y in origin_walk(x[2]) if y[0] == "local"}
+                reads = [b2 for b2, t2 in f.calls() if t2.get("callee") == "std::io::Read::read"]
+                if minuend_locals and reads and not any("size" in origin_fields(x[2]) for _ in [0]):
+                    for rb in reads:
+                        okb, why = shared.read_buffer_bounded_by(f, rb, minuend_locals)
+                        if not okb:
+                            return None
             self.ctx.assume("inner readers obey the io::Read contract (returned count <= buffer length)")
             return ("D-READ-CONTRACT", "%s of a count returned by Read::read, which is bounded by the slice handed to it" % x[1])
         return None
@@ -565,6 +574,10 @@ def run(ctx):
                    ok, g.loc(bb), ("size derives from a client-declared length and %s" % (bound or "nothing bounds it: a header like `Content-Length: 99999999999999` makes the process try to allocate that much (abort)")) if tainted else "size is not client-derived",
                    nontrivial=tainted)
     ctx.floor("C14.A allocation sinks in the region", nsinks, 2)
+    ntainted = sum(1 for fid in fns for bb, t, idx in taint.sink_sites(fns[fid]) if T.op_tainted(fns[fid], t["args"][idx]))
+    # the declared Content-Length is known to reach two allocation sites (pre-read buffer, discard buffer): if the taint
+    # no longer gets there, the flow analysis has gone blind (e.g. after a refactoring of the parser) -- fail closed
+    ctx.floor("C14.A allocation sinks reached by a client-declared length", ntainted, 2)
     ctx.counts["C14.A tainted fields"] = len(T.fields)
 
     res = panic_census(ctx, "C14.B", reg, fns)
